@@ -236,21 +236,27 @@ class HttpWebServerPlugin(HttpProtocolHandlerPlugin):
         return chunk
 
     def _context(self) -> Dict[str, Any]:
+        # Request attributes are bytes received from the client and need not
+        # be valid UTF-8.  Decode them leniently: on_client_connection_close
+        # must reach the route's own close handler for every connection.
+        def _text(value: Any) -> Any:
+            return text_(value, errors='replace')
+
         return {
             'client_ip': None if not self.client.addr else self.client.addr[0],
             'client_port': None if not self.client.addr else self.client.addr[1],
             'connection_time_ms': '%.2f' % ((time.time() - self.start_time) * 1000),
             # Request
-            'request_method': text_(self.request.method),
-            'request_path': text_(self.request.path),
+            'request_method': _text(self.request.method),
+            'request_path': _text(self.request.path),
             'request_bytes': self.request.total_size + self._post_request_data_size,
             'request_ua': (
-                text_(self.request.header(b'user-agent'))
+                _text(self.request.header(b'user-agent'))
                 if self.request.has_header(b'user-agent')
                 else None
             ),
             'request_version': (
-                None if not self.request.version else text_(self.request.version)
+                None if not self.request.version else _text(self.request.version)
             ),
             # Response
             #
